@@ -243,15 +243,6 @@ class AssembleSim:
         amcmc = self.m["amcmc"]
         threshold = {"off": -1, "always": 0, "default": 100, "tiny": 0}[cfg["cache"]["mode"]]
         initial = gen_initial(cfg, cfg["data_seed"] ^ 0x5A5A)
-        if initial is None and len(set(cfg["n_alleles"])) > 1:
-            # Observation O1 (DESIGN.md): with mixed allele counts, _read_mean_dist fills an
-            # all-gap column with 1/max_allele for every slot, so the automatic start state can
-            # hold an allele index >= n_alleles[j].  That start state is not a genotype of the
-            # model; C01 quantifies over genotypes, so the harness supplies `initial=` instead.
-            gaps = np.isnan(self.reads).all(axis=(0, 2)) if len(self.reads) else np.ones(len(cfg["n_alleles"]), bool)
-            if gaps.any():
-                initial = gen_initial(dict(cfg, initial="random"), cfg["data_seed"] ^ 0x5A5A)
-                self.ctx.counters.inc("o1_initial_supplied")
         with Seams() as seams:
             self.install(seams)
             if cfg["entry"] == "fit":
@@ -278,9 +269,6 @@ class AssembleSim:
                     # the same model object fitted again to other reads: nothing may survive from the first fit
                     cfg2 = dict(cfg, data_seed=cfg["data_seed"] + 1)
                     reads2, counts2 = gen_reads(cfg2)
-                    gaps2 = np.isnan(reads2).all(axis=(0, 2)) if len(reads2) else np.ones(len(cfg["n_alleles"]), bool)
-                    if initial is None and len(set(cfg["n_alleles"])) > 1 and gaps2.any():
-                        return self.result  # observation O1 again: automatic start state would be illegal
                     self.history_first = list(self.history)
                     del self.history[:]
                     self.chain_no = -1
